@@ -41,13 +41,13 @@ CLAIMS = {
         technique="stateful property-based testing (rapid): structural invariant (reference integrity linter) over every written configuration",
     ),
     "C18": dict(
-        text="Generated worlds with every kind of auth-url / oauth declaration (usable and unusable) are synced by the real controller and every request that the documented routing sends to a protected path is evaluated through the written http-request rules with the auth response unset: it must end in deny/redirect, preceded by the interception when the declaration is usable. 40% of the cases continue with a short history (the auth-proxy port bookkeeping is carried from sync to sync) and are evaluated after every batch. Two known findings on frontend placement are matched by precise signatures; anything else is reported.",
+        text="Generated worlds with every kind of auth-url / oauth declaration (usable and unusable) are synced by the real controller and every request that the documented routing sends to a protected path is evaluated through the written http-request rules with the auth response unset: it must end in deny/redirect, preceded by the interception when the declaration is usable. 40% of the cases continue with a short history (the auth-proxy port bookkeeping is carried from sync to sync) and are evaluated after every batch. Two known findings on frontend placement are matched by precise signatures; anything else is reported. For oauth the interception must go to a backend of the declaring namespace; for auth-url svc://name:port the helper backend is followed through the auth proxy frontend to the backend it ends in, which must belong to the declared Service of the declaring namespace; IngressClass Parameters that carry an auth-url protect every ingress of the class.",
         design_ref="DESIGN.md section 3, C18",
         note="Trusts harness/hapcfg's rule evaluator and the reference routing model; Lua's auth-request behaviour is reduced to 'txn.auth_response_successful is unset for an unauthenticated client'.",
         technique="property-based testing (rapid): oracle = evaluation of the written access rules for requests routed to protected paths (fail-closed), two-sided",
     ),
     "C08": dict(
-        text="The 48-row class decision table is enumerated exhaustively against the real cache facade, and generated histories of class transitions are checked after every reconciliation: everything the written configuration routes must come from an Ingress the documented class rules select, and everything a selected Ingress declares must be routed.",
+        text="The 48-row class decision table is enumerated exhaustively against the real cache facade, and generated histories of class transitions are checked after every reconciliation: everything the written configuration routes must come from an Ingress the documented class rules select, and everything a selected Ingress declares must be routed. The two class switches are also given to the controller's own option handling (config.CreateWithConfig), with and without the deprecated --ignore-ingress-without-class.",
         design_ref="DESIGN.md section 3, C08",
         note="Decision table compared with a reference written from docs (keys.md 'Class matter', command-line 'ingress-class'); the legacy controller's copy of IsValidIngress is not exercised; routing read through harness/hapcfg.",
         technique="exhaustive enumeration of the decision table + stateful property-based testing (rapid) against a reference model of class selection and routing",
@@ -59,7 +59,7 @@ CLAIMS = {
         technique="stateful property-based testing (rapid) against a reference model of certificate selection, observed on a simulated HAProxy",
     ),
     "C09": dict(
-        text="Metamorphic pairs of runs (a fresh sync, or the same short history of global ConfigMap changes and a partial re-parse) that differ only in a foreign-namespace object (present/absent, existing/dangling name) must produce identical behavioural normal forms whenever the reference's kind is denied, over every reference site, form, placement and allow/deny setting; allowed settings act as non-vacuity controls. Three bypasses found this way were repaired in /repo.",
+        text="Metamorphic pairs of runs (a fresh sync, or the same short history of global ConfigMap changes and a partial re-parse) that differ only in a foreign-namespace object (present/absent, existing/dangling name) must produce identical behavioural normal forms whenever the reference's kind is denied, over every reference site, form, placement and allow/deny setting; allowed settings act as non-vacuity controls. Three bypasses found this way were repaired in /repo. Gateway API sites: the certificateRef of a listener and the optional namespace field of a backendRef.",
         design_ref="DESIGN.md section 3, C09",
         note="The finite case space (7 sites x forms x placements x 7^4 settings x CLI x relation x b-uses) is sampled, not enumerated; normal form by harness/hapcfg; reads of a foreign secret are observed through the PEM file the facade writes when it reads one.",
         technique="property-based testing (rapid): metamorphic relation between two worlds differing only in foreign-namespace objects",
@@ -77,7 +77,7 @@ CLAIMS = {
         technique="property-based testing (rapid): metamorphic relation (permuted inputs / repeated runs must give the same normal form)",
     ),
     "C02": dict(
-        text="Generated histories of endpoint, weight, certificate and configuration changes, with fault plans over individual runtime commands, run against a simulated HAProxy behind real unix sockets; after every successful update the state of the running process is compared with the state obtained by loading the files just written (servers per slot, drain, preserved cookies, certificates).",
+        text="Generated histories of endpoint, weight, certificate and configuration changes, with fault plans over individual runtime commands, run against a simulated HAProxy behind real unix sockets; after every successful update the state of the running process is compared with the state obtained by loading the files just written (servers per slot, drain, preserved cookies, certificates). The use-server rules (blue/green header routing) of the configuration loaded by the running process are compared as well; DNS resolver backends are loaded as server-template slots.",
         design_ref="DESIGN.md section 3, C02; section 2.4 simhap",
         note="simhap's model of set server / set ssl cert / commit ssl cert / reload is the trusted base; real HAProxy is not available in the sandbox.",
         technique="stateful property-based testing (rapid) with fault injection: model-based comparison running state == load(files) after every step",
@@ -101,7 +101,7 @@ CLAIMS = {
         technique="property-based testing (rapid): two-sided oracle (must-drop / must-keep) on the written backend section",
     ),
     "C17": dict(
-        text="The signer's issue/skip/store decision is checked on generated certificate states against an independent reference (expiry window, SAN coverage, client outcomes); the acme work queue is checked on generated ingress histories through the real converters and AcmeUpdate: adds and removes per reconciliation must equal the difference of the storages the cluster asks for. A third part drives the real signer with generated sequences of AcmeAccount calls (two accounts, removal) against a local ACME account endpoint, with faults while the key is read or the account is requested: whenever the presented account can be loaded it must be, and a missing certificate then produces exactly one order. Two defects (domain added in place to a shared storage; an account presented again after a removal or a failed replacement never loaded) were repaired in /repo.",
+        text="The signer's issue/skip/store decision is checked on generated certificate states against an independent reference (expiry window, SAN coverage, client outcomes); the acme work queue is checked on generated ingress histories through the real converters and AcmeUpdate: adds and removes per reconciliation must equal the difference of the storages the cluster asks for. A third part drives the real signer with generated sequences of AcmeAccount calls (two accounts, removal) against a local ACME account endpoint, with faults while the key is read or the account is requested: whenever the presented account can be loaded it must be, and a missing certificate then produces exactly one order. Two defects (domain added in place to a shared storage; an account presented again after a removal or a failed replacement never loaded) were repaired in /repo. A fourth part lets the real signer read secrets through the controller's own cache facade (real PEM parsing), with tls.crt holding the leaf alone or the leaf followed by its issuer: the decision must follow the leaf.",
         design_ref="DESIGN.md section 3, C17",
         note="The acme protocol client and the challenge server are outside for the signer and queue parts (client is a stub; the account part uses the real client against a minimal local ACME server: directory, nonce, account, refused orders); leader election is a stub flag; the hooked Services (real ReconcileIngress) is never leader, so acme histories run through ctlsim's mirror of ReconcileIngress.",
         technique="property-based testing (rapid): decision-table style oracle for the signer; stateful model (set difference of wanted storages) for the queue",
